@@ -142,7 +142,13 @@ func (x *c20) runOne(model string, a, b core.Files, slot, op string, id string) 
 	default:
 		x.res.Nontrivial++
 		x.res.Outcome("panic:" + out.Site)
-		x.violation(model, a, b, slot, op, "no-panic", "panic:"+out.Site,
+		// a deliberate panic(err) and a runtime error (nil dereference, index
+		// out of range, fatal error) at the same site are different findings
+		sig := "panic:" + out.Site
+		if strings.Contains(out.Panic, "runtime error") || strings.Contains(out.Panic, "fatal error") {
+			sig += ":runtime-error"
+		}
+		x.violation(model, a, b, slot, op, "no-panic", sig,
 			fmt.Sprintf("runtime panic at %s: %s", out.Site, short(out.Panic, 200)))
 	}
 }
@@ -342,7 +348,7 @@ func c20Worker(ctx *core.Ctx) *core.Result {
 			infos = append(infos, base[:k])
 		}
 		for _, v := range []string{`{"model":17}`, `{"model":["ASA"]}`, `{"model":null}`, `{"model":"ASA","ip_list":"10.1.1.1"}`,
-			`{"model":"ASA","ip_list":[1]}`, `{"model":"ASA","name_list":{}}`, `[]`, `"ASA"`, `{"model":"asa"}`, `{"MODEL":"ASA"}`,
+			`{"model":"ASA","ip_list":[1]}`, `{"model":"ASA","name_list":{}}`, `[]`, `null`, `"ASA"`, `{"model":"asa"}`, `{"MODEL":"ASA"}`,
 			`{"model":"ASA"}{"model":"IOS"}`, "{\"model\":\"ASA\"}\n\x00"} {
 			infos = append(infos, v)
 		}
